@@ -64,8 +64,8 @@ impl St {
         for (l, info) in socks.iter().enumerate() {
             let m = lmodel(&info.lst);
             let link = match &info.lst { MioListener::Uds(u) => u.linked() as i8, _ => -1 };
-            s += &format!(" L{}:reg={},bl={},dl={},link={},tok={}", l, m.registered as u8, m.script.borrow().len(),
-                info.timeout.map(|d| d.0.to_string()).unwrap_or("none".into()), link, info.token);
+            s += &format!(" L{}:reg={},bl={},dl={},link={},tok={},acc={}", l, m.registered as u8, m.script.borrow().len(),
+                info.timeout.map(|d| d.0.to_string()).unwrap_or("none".into()), link, info.token, m.next_id.get());
         }
         s += &format!(" cmd=[{}] clock={} fin={:?} lost={:?}", self.cmds.join(","), actix_rt::time::now_ms(), self.finished, self.lost);
         self.out.push(s);
